@@ -582,6 +582,12 @@ pub fn run(id: &str, tier: Tier) -> i32 {
     coverage.insert("evaluations".into(), json!(acc.evals.max(acc.cases)));
     coverage.insert("distinct_nontrivial".into(), json!(nontrivial));
     coverage.insert("rule".into(), json!(prop.rule()));
+    if acc.samples.is_empty() {
+        // no case recorded a sample (they are taken from the first cases that reach the oracle):
+        // describe the run by its counters instead of leaving the list empty
+        let first: BTreeMap<&String, &u64> = acc.counters.iter().take(12).collect();
+        acc.samples.push(json!({"note": "no per-case sample was recorded in this run; first counters shown", "counters": first}));
+    }
     coverage.insert("samples".into(), json!(acc.samples));
     coverage.insert("cases_planned".into(), json!(n_cases));
     coverage.insert("cases_completed".into(), json!(acc.cases));
